@@ -54,6 +54,13 @@ def gen(prog, mode):
                  ('item', '0 < old(self).remaining() ==> r is Some && var_ok(old(self).hi() - 1, r->Some_0) && final(self).hi() == old(self).hi() - 1 && final(self).lo() == old(self).lo()'),
                  ('exhausted', '0 >= old(self).remaining() ==> r is None && final(self).remaining() == 0')],
         props=['C04', 'C05'])
+    # nth_back is std's default method on the unchanged tree; if a template overrides it, this is its contract
+    plan[(It, 'DoubleEndedIterator', 'nth_back')] = Contract(
+        requires=[('wf', 'old(self).wf()')],
+        ensures=[('wf', 'final(self).wf()'),
+                 ('item', 'n < old(self).remaining() ==> r is Some && var_ok(old(self).hi() - 1 - n, r->Some_0) && final(self).hi() == old(self).hi() - 1 - n && final(self).lo() == old(self).lo()'),
+                 ('exhausted', 'n >= old(self).remaining() ==> r is None && final(self).remaining() == 0')],
+        props=['C04', 'C05', 'C08'], optional=True)
     plan[(It, 'Iterator', 'size_hint')] = Contract(
         requires=[('wf', 'self.wf()')],
         ensures=[('exact', 'r.0 == self.remaining() && r.1 == Some(r.0)')], props=['C05', 'C04'])
@@ -92,7 +99,7 @@ fn vx_reach_iter%s() %s
 # ---------------------------------------------------------------------------------------
 # Kani twin on the real derive output (no rewriting): same contract, loop-free, full 64-bit domain.
 
-OPS = ['nth', 'next', 'next_back', 'size_hint', 'len', 'clone', 'iter', 'get']
+OPS = ['nth', 'next', 'next_back', 'nth_back', 'size_hint', 'len', 'clone', 'iter', 'get']
 
 def kani_module(prog):
     E = prog.name
@@ -116,9 +123,9 @@ mod vx_proofs {
         }
     }
     fn eqv(r: &Option<En>, i: usize) -> bool { %(eqv)s }
-    fn wf(it: &It) -> bool { it.idx <= N && it.back_idx <= N && (it.idx + it.back_idx <= N || it.idx == N || it.back_idx == N) }
-    fn lo(it: &It) -> usize { it.idx }
-    fn hi(it: &It) -> usize { if it.idx + it.back_idx >= N { it.idx } else { N - it.back_idx } }
+    fn wf(it: &It) -> bool { let (a, b) = (it.idx as usize, it.back_idx as usize); a <= N && b <= N && (a + b <= N || a == N || b == N) }
+    fn lo(it: &It) -> usize { it.idx as usize }
+    fn hi(it: &It) -> usize { let (a, b) = (it.idx as usize, it.back_idx as usize); if a + b >= N { a } else { N - b } }
     fn any_wf() -> It {
         let it = It { idx: kani::any(), back_idx: kani::any(), marker: PhantomData };
         kani::assume(wf(&it));
@@ -152,6 +159,19 @@ mod vx_proofs {
         if 0 < h - l { assert!(eqv(&r, h - 1)); assert!(lo(&it) == l && hi(&it) == h - 1); }
         else { assert!(r.is_none()); assert!(hi(&it) - lo(&it) == 0); }
     }
+    // nth_back: std's default method (a loop over next_back) unless a template overrides it; n bounded by N + 1 for the unwinding
+    #[kani::proof]
+    #[kani::unwind(%(unw)d)]
+    fn twin_nth_back() {
+        let mut it = any_wf();
+        let n: usize = kani::any();
+        kani::assume(n <= N + 1);
+        let (l, h) = (lo(&it), hi(&it));
+        let r = it.nth_back(n);
+        assert!(wf(&it));
+        if n < h - l { assert!(eqv(&r, h - 1 - n)); assert!(lo(&it) == l && hi(&it) == h - 1 - n); }
+        else { assert!(r.is_none()); assert!(hi(&it) - lo(&it) == 0); }
+    }
     #[kani::proof]
     fn twin_size_hint() {
         let it = any_wf();
@@ -182,4 +202,4 @@ mod vx_proofs {
         assert!(eqv(&it.get(i), i));
     }
 }
-''' % dict(N=N, It=It, E=E, inst=inst, arms=arms, eqv=('*r == var(i)' if prog.variants else 'r.is_none()'))
+''' % dict(N=N, It=It, E=E, inst=inst, arms=arms, eqv=('*r == var(i)' if prog.variants else 'r.is_none()'), unw=N + 4)
